@@ -182,13 +182,28 @@ func c12Shapes() []*spec.Spec {
 			&spec.Conn{From: "PSB.out", To: "PC.u", Param: true}, &spec.Conn{From: "PSC.out", To: "PC.v", Param: true})
 		out = append(out, s)
 	}
-	// two joined in-ports, non-matching %suffix modifiers in three processes at once, IPSelectorSync over triples of which several members are rejected, each fed by its own StreamToSubStream
+	// two joined in-ports, non-matching %suffix modifiers in three processes at once, IPSelectorSync over triples of which several members are rejected, source files with foreign audit files (\"Tags\": null) fanned out to three consumers, each fed by its own StreamToSubStream
 	{
 		s := mk("two_joins", 4)
 		s.Procs = append(s.Procs, cmd("UA", in, o1, 1), cmd("UB", in, o1, 1), &spec.Proc{Name: "SSA", Kind: spec.KSubStream}, &spec.Proc{Name: "SSB", Kind: spec.KSubStream},
 			&spec.Proc{Name: "JN2", Kind: spec.KCmd, Cmd: "echo A:{i:a|join:,}:A B:{i:b|join: }:B > {o:out}", Outs: []*spec.Out{{Port: "out", Pattern: "joined2.out"}}})
 		s.Conns = append(s.Conns, &spec.Conn{From: "src.out", To: "UA.in"}, &spec.Conn{From: "src.out", To: "UB.in"}, &spec.Conn{From: "UA.out", To: "SSA.in"}, &spec.Conn{From: "UB.out", To: "SSB.in"},
 			&spec.Conn{From: "SSA.substream", To: "JN2.a"}, &spec.Conn{From: "SSB.substream", To: "JN2.b"})
+		out = append(out, s)
+	}
+	// source files that bring audit files of their own, written by other tools: "Tags": null, no Params - fanned out to
+	// three consumers that all look at the record
+	{
+		in, o1 := []spec.PortDecl{{Name: "in"}}, []spec.PortDecl{{Name: "out"}}
+		s := mk("foreignaudit", 3)
+		for _, f := range []string{"r00.txt", "r01.txt", "r02.txt"} {
+			s.Sources[f+".audit.json"] = `{"ID": "foreign-` + f + `", "ProcessName": "imported", "Command": "wget ` + f + `", "Params": null, "Tags": null, "StartTime": "2024-03-01T10:00:00Z", "FinishTime": "2024-03-01T10:00:01Z", "ExecTimeNS": 1000000000, "OutFiles": {"out": "` + f + `"}, "Upstream": null}`
+		}
+		for k := 0; k < 3; k++ {
+			pn := fmt.Sprintf("fa%d", k)
+			s.Procs = append(s.Procs, &spec.Proc{Name: pn, Kind: []string{spec.KCmd, spec.KGoFunc, spec.KCmd}[k], Cmd: spec.BuildCmd(pn, in, o1, nil, nil, nil)})
+			s.Conns = append(s.Conns, &spec.Conn{From: "src.out", To: pn + ".in"})
+		}
 		out = append(out, s)
 	}
 	// IPSelectorSync over aligned pairs of which both members, one member or no member are rejected
@@ -250,7 +265,7 @@ func c12Shapes() []*spec.Spec {
 func c12(args []string) {
 	c := chk.New("C12", "exploration", args)
 	c.Build(true)
-	c.Rule("the subject built with the Go race detector (-race, GORACE=halt_on_error=0 log_path=...) runs generated graphs biased to shared state (fan-out of one out-port to several consumers, MapToTags beside sibling consumers, multi-output tasks feeding different consumers, fan-in, multi-core tasks, parameter feeders and combinators, Go functions) and directed shapes (tagging + reading siblings + GroupByTag concatenation, simultaneous closing of 6 upstreams, RunTo with literal parameter feeders, components with internal goroutines, a streaming pair, 16 streamed items from a producer with additional regular outputs, one out-port fanned out to Go functions that Read() the same items, the sink draining files and parameters at once, two joined in-ports, non-matching %suffix modifiers in three processes at once, IPSelectorSync over triples of which several members are rejected, a second workflow with a custom log file created while a first one is running), each under several yield-point seeds and GOMAXPROCS values, every second directed shape also re-run in place after it completed (all tasks skipped, IPs loaded from disk), every second run with passive hooks, every fourth also with the library's logging reduced to errors (an active hook takes the monitor mutex, which is a synchronisation the race detector sees and which would order accesses the plain library leaves unordered); oracle: every 'WARNING: DATA RACE' block with a scipipe frame is a violation, de-duplicated by the pair of innermost scipipe frames; blocks without any scipipe frame are harness bugs (check reported as broken). distinct_nontrivial = distinct interleaving signatures observed under the race detector")
+	c.Rule("the subject built with the Go race detector (-race, GORACE=halt_on_error=0 log_path=...) runs generated graphs biased to shared state (fan-out of one out-port to several consumers, MapToTags beside sibling consumers, multi-output tasks feeding different consumers, fan-in, multi-core tasks, parameter feeders and combinators, Go functions) and directed shapes (tagging + reading siblings + GroupByTag concatenation, simultaneous closing of 6 upstreams, RunTo with literal parameter feeders, components with internal goroutines, a streaming pair, 16 streamed items from a producer with additional regular outputs, one out-port fanned out to Go functions that Read() the same items, the sink draining files and parameters at once, two joined in-ports, non-matching %suffix modifiers in three processes at once, IPSelectorSync over triples of which several members are rejected, a second workflow with a custom log file created while a first one is running), each under several yield-point seeds and GOMAXPROCS values, every second directed shape also re-run in place after it completed (all tasks skipped, IPs loaded from disk), every second run with passive hooks, every fourth also with the library's logging reduced to errors and every fourth at its DEBUG level (an active hook takes the monitor mutex, which is a synchronisation the race detector sees and which would order accesses the plain library leaves unordered); oracle: every 'WARNING: DATA RACE' block with a scipipe frame is a violation, de-duplicated by the pair of innermost scipipe frames; blocks without any scipipe frame are harness bugs (check reported as broken). distinct_nontrivial = distinct interleaving signatures observed under the race detector")
 	c.Assume("the race detector reports happens-before violations on executed paths only")
 	rng := c.Rand("c12")
 	type job struct {
@@ -270,12 +285,13 @@ func c12(args []string) {
 		for k := 0; k < reps; k++ {
 			// every second run with passive hooks: the monitor mutex of an active hook is a synchronisation the
 			// race detector sees, and would order accesses that the plain library leaves unordered
-			jobs = append(jobs, &job{s, Cfg{Buf: b, Procs: []int{2, 4, 8}[rng.Intn(3)], Sched: fmt.Sprintf("%d,400,800", rng.Intn(1<<30)), Race: true, NoHooks: k%2 == 1, Quiet: k%4 == 3}, "generated"})
+			jobs = append(jobs, &job{s, Cfg{Buf: b, Procs: []int{2, 4, 8}[rng.Intn(3)], Sched: fmt.Sprintf("%d,400,800", rng.Intn(1<<30)), Race: true, NoHooks: k%2 == 1, Quiet: k%4 == 3, Debug: (g+k)%5 == 0 && k%4 != 3}, "generated"})
 		}
 	}
 	for _, s := range c12Shapes() {
 		for k := 0; k < c.Pick(4, 12); k++ {
-			jobs = append(jobs, &job{s, Cfg{Buf: []int{1, 3, 128}[k%3], Procs: []int{2, 4, 8}[k%3], Sched: fmt.Sprintf("%d,400,800", rng.Intn(1<<30)), Race: true, NoHooks: k%2 == 1, Quiet: k%4 == 3}, "shape:" + s.Name})
+			// (every fourth run with the logging reduced to errors, every fourth at the library's DEBUG level)
+			jobs = append(jobs, &job{s, Cfg{Buf: []int{1, 3, 128}[k%3], Procs: []int{2, 4, 8}[k%3], Sched: fmt.Sprintf("%d,400,800", rng.Intn(1<<30)), Race: true, NoHooks: k%2 == 1, Quiet: k%4 == 3, Debug: k%4 == 1}, "shape:" + s.Name})
 		}
 	}
 	type seen struct {
